@@ -632,6 +632,15 @@ def _check_coercion(chk, rule, repo, enc):
                 if isinstance(n, ast.Call) and isinstance(n.func, ast.Name) and n.func.id == "Variable" and len(n.args) >= 2:
                     d = Flow(av).expand(n.args[1])
                     alt = isinstance(d, ast.Call) and _fq(repo, av, d.func) in COERCE
+    if not (ok or alt):
+        # the flow-insensitive reading above found a use of the raw data; it is a violation only when nothing on the way coerces at
+        # all - otherwise the order of coercion and use is decided by evaluating the encoder on list-held data (K8)
+        from .callgraph import CallGraph
+        g_ = CallGraph(repo)
+        reach = g_.reachable([ea.key])
+        any_coercion = any(isinstance(n, ast.Call) and _fq(repo, g_.funcs[k], n.func) in COERCE for k in reach if k in g_.funcs and g_.funcs[k].module is enc for n in ast.walk(g_.funcs[k].node))
+        if any_coercion:
+            raise AnalysisError(f"{where}: {short(uses[0])} may touch the raw (list) data before it is coerced; the order is not decided by the form rule")
     chk.require(ok or alt, rule, where,
                 "plain (list) variable data is coerced with np.asarray before .dtype/.tolist() are used",
                 f"encode_array uses the ndarray API ({short(uses[0])}) on variable data that the reader produces as plain lists "
